@@ -1,0 +1,79 @@
+//go:build verif && !noregpool && !nocontpool
+
+package runtime
+
+import "reflect"
+
+// Hooks for the /verif framework (C14): thin exported wrappers to drive the
+// real register and continuation pools.  Add-only, "verif" build tag only
+// (and only in the configuration where the pools exist).
+
+// VerifValuePool wraps a fresh valuePool.
+type VerifValuePool struct{ p valuePool }
+
+func VerifNewValuePool(size, maxAge uint) *VerifValuePool {
+	return &VerifValuePool{p: mkValuePool(size, maxAge)}
+}
+func (v *VerifValuePool) Get(sz int) []Value { return v.p.get(sz) }
+func (v *VerifValuePool) Release(s []Value)  { v.p.release(s) }
+
+// State returns gen and, per slot, the expiry and the length of the stored slice (-1 = nil).
+func (v *VerifValuePool) State() (gen uint, exps []uint, lens []int) {
+	gen = v.p.gen
+	exps = append(exps, v.p.exps...)
+	for _, s := range v.p.values {
+		if s == nil {
+			lens = append(lens, -1)
+		} else {
+			lens = append(lens, len(s))
+		}
+	}
+	return
+}
+
+// VerifCellPool wraps a fresh cellPool.
+type VerifCellPool struct{ p cellPool }
+
+func VerifNewCellPool(size, maxAge uint) *VerifCellPool {
+	return &VerifCellPool{p: mkCellPool(size, maxAge)}
+}
+func (v *VerifCellPool) Get(sz int) []Cell { return v.p.get(sz) }
+func (v *VerifCellPool) Release(s []Cell)  { v.p.release(s) }
+func (v *VerifCellPool) State() (gen uint, exps []uint, lens []int) {
+	gen = v.p.gen
+	exps = append(exps, v.p.exps...)
+	for _, s := range v.p.cells {
+		if s == nil {
+			lens = append(lens, -1)
+		} else {
+			lens = append(lens, len(s))
+		}
+	}
+	return
+}
+
+// VerifCellIsZero reports whether c is the zero Cell; VerifDirtyCell returns a non-zero Cell.
+func VerifCellIsZero(c Cell) bool { return c == Cell{} }
+func VerifDirtyCell() Cell        { return newCell(IntValue(7)) }
+
+// VerifLuaContPool wraps a fresh luaContPool.
+type VerifLuaContPool struct{ p luaContPool }
+
+func VerifNewLuaContPool() *VerifLuaContPool   { return &VerifLuaContPool{} }
+func (v *VerifLuaContPool) Get() *LuaCont      { return v.p.get() }
+func (v *VerifLuaContPool) Release(c *LuaCont) { v.p.release(c) }
+func (v *VerifLuaContPool) Next() int          { return v.p.next }
+func VerifLuaContIsZero(c *LuaCont) bool       { return reflect.DeepEqual(*c, LuaCont{}) }
+func VerifLuaContDirty(c *LuaCont)             { c.pc = 7; c.running = true; c.registers = make([]Value, 3) }
+func VerifLuaContPoolSize() int                { return luaContPoolSize }
+
+// VerifGoContPool wraps a fresh goContPool.
+type VerifGoContPool struct{ p goContPool }
+
+func VerifNewGoContPool() *VerifGoContPool   { return &VerifGoContPool{} }
+func (v *VerifGoContPool) Get() *GoCont      { return v.p.get() }
+func (v *VerifGoContPool) Release(c *GoCont) { v.p.release(c) }
+func (v *VerifGoContPool) Next() int         { return v.p.next }
+func VerifGoContIsZero(c *GoCont) bool       { return reflect.DeepEqual(*c, GoCont{}) }
+func VerifGoContDirty(c *GoCont)             { c.nArgs = 7; c.args = make([]Value, 2) }
+func VerifGoContPoolSize() int               { return goContPoolSize }
